@@ -29,7 +29,7 @@ Record handle := mkH {
   h_use : nat;            (* useCount *)
   h_wv : N;               (* writtenVersion *)
   h_cv : N;               (* currentVersion *)
-  h_writing : bool;       (* isWriting *)
+  h_writing : option nat; (* isWriting; ghost: the Get that is writing it *)
   h_msg : list N;         (* message = update tokens *)
   h_first : option nat }. (* ghost: first Get that returned this handle *)
 
@@ -41,9 +41,9 @@ Inductive rstate := RNone | RPending | RDone.
 (* A Get call between its first and its last critical section. *)
 Record get := mkG {
   g_dig : N;
-  g_existing : bool;       (* hasExistingHandle *)
-  g_h : nat;               (* handleToReturn *)
+  g_existing : option nat; (* hasExistingHandle / handleToReturn *)
   g_read : rstate;
+  g_snap : list N;         (* message read from the ISCC into the new handle *)
   g_writes : list write;   (* writes not yet completed *)
   g_failed : bool }.       (* some goroutine of the errgroup failed *)
 
@@ -78,12 +78,12 @@ Definition updn {A} (f : nat -> A) (k : nat) (v : A) : nat -> A :=
 Definition updN {A} (f : N -> A) (k : N) (v : A) : N -> A :=
   fun x => if N.eqb x k then v else f x.
 
-Definition empty_handle := mkH 0 0 0 0 false [] None.
+Definition empty_handle := mkH 0 0 0 0 None [] None.
 
 Definition set_use (h : handle) (u : nat) := mkH (h_dig h) u (h_wv h) (h_cv h) (h_writing h) (h_msg h) (h_first h).
 Definition set_wv (h : handle) (v : N) := mkH (h_dig h) (h_use h) v (h_cv h) (h_writing h) (h_msg h) (h_first h).
 Definition set_cv (h : handle) (v : N) := mkH (h_dig h) (h_use h) (h_wv h) v (h_writing h) (h_msg h) (h_first h).
-Definition set_writing (h : handle) (b : bool) := mkH (h_dig h) (h_use h) (h_wv h) (h_cv h) b (h_msg h) (h_first h).
+Definition set_writing (h : handle) (b : option nat) := mkH (h_dig h) (h_use h) (h_wv h) (h_cv h) b (h_msg h) (h_first h).
 Definition set_msg (h : handle) (m : list N) := mkH (h_dig h) (h_use h) (h_wv h) (h_cv h) (h_writing h) m (h_first h).
 Definition set_first (h : handle) (f : option nat) := mkH (h_dig h) (h_use h) (h_wv h) (h_cv h) (h_writing h) (h_msg h) f.
 
@@ -102,6 +102,8 @@ Definition upd_handle (s : state) (hid : nat) (f : handle -> handle) : state :=
 
 Definition init : state :=
   mkS (fun _ => empty_handle) 0 (fun _ => None) [] (fun _ => []) (fun _ => None) 0 (fun _ => None) (fun _ => []).
+
+Definition is_some {A} (o : option A) : bool := match o with Some _ => true | None => false end.
 
 Definition inb (x : nat) (l : list nat) : bool := existsb (Nat.eqb x) l.
 
@@ -128,7 +130,7 @@ Definition swap_remove (h : nat) (q : list nat) : list nat :=
 
 (* Get's dequeue loop: pop from the end, at most [n] times; snapshot the
    message and the current version. *)
-Fixpoint dequeue (guard : bool) (n : nat) (hs : nat -> handle) (q : list nat)
+Fixpoint dequeue (g : nat) (n : nat) (hs : nat -> handle) (q : list nat)
     : (nat -> handle) * list nat * list write :=
   match n with
   | O => (hs, q, [])
@@ -139,8 +141,8 @@ Fixpoint dequeue (guard : bool) (n : nat) (hs : nat -> handle) (q : list nat)
       let x := last q 0%nat in
       let h := hs x in
       let w := mkW x (h_dig h) (h_msg h) (h_cv h) in
-      let hs' := if guard then updn hs x (set_writing h true) else hs in
-      let '(hs'', q'', ws) := dequeue guard n' hs' (removelast q) in
+      let hs' := updn hs x (set_writing h (Some g)) in
+      let '(hs'', q'', ws) := dequeue g n' hs' (removelast q) in
       (hs'', q'', w :: ws)
     end
   end.
@@ -155,7 +157,7 @@ Definition increase_use (hid : nat) (s : state) : state :=
 
 Definition remove_or_queue (v : variant) (hid : nat) (s : state) : state :=
   let h := s_handles s hid in
-  if Nat.eqb (h_use h) 0 && negb (v_guard v && h_writing h) then
+  if Nat.eqb (h_use h) 0 && negb (v_guard v && is_some (h_writing h)) then
     if N.eqb (h_wv h) (h_cv h) then set_map s (updN (s_map s) (h_dig h) None)
     else if inb hid (s_queue s) then s
     else set_queue s (s_queue s ++ [hid])
@@ -168,27 +170,22 @@ Definition decrease_use (v : variant) (hid : nat) (s : state) : state :=
 
 Definition step_get (v : variant) (d : N) (s : state) : state * out :=
   let g := s_nextg s in
-  let '(s1, existing, hid) :=
-    match s_map s d with
-    | Some hid => (increase_use hid s, true, hid)
-    | None =>
-      let hid := s_nexth s in
-      (set_nexth (set_handles s (updn (s_handles s) hid (mkH d 1 0 0 false [] None))) (S hid), false, hid)
-    end in
-  let '(hs, q, ws) := dequeue (v_guard v) writes_per_read (s_handles s1) (s_queue s1) in
+  let existing := s_map s d in
+  let s1 := match existing with Some hid => increase_use hid s | None => s end in
+  let '(hs, q, ws) := dequeue g writes_per_read (s_handles s1) (s_queue s1) in
   let s2 := set_queue (set_handles s1 hs) q in
-  let gt := mkG d existing hid (if existing then RNone else RPending) ws false in
+  let gt := mkG d existing (if is_some existing then RNone else RPending) [] ws false in
   (set_nextg (set_gets s2 (updn (s_gets s2) g (Some gt))) (S g),
-   OBegin (negb existing) (map (fun w => (w_dig w, w_msg w)) ws)).
+   OBegin (negb (is_some existing)) (map (fun w => (w_dig w, w_msg w)) ws)).
 
 Definition step_read (g : nat) (ok : bool) (s : state) : state * out :=
   match s_gets s g with
   | Some gt =>
     match g_read gt with
     | RPending =>
-      let s1 := if ok then upd_handle s (g_h gt) (fun h => set_msg h (s_backing s (g_dig gt))) else s in
-      let gt' := mkG (g_dig gt) (g_existing gt) (g_h gt) RDone (g_writes gt) (g_failed gt || negb ok) in
-      (set_gets s1 (updn (s_gets s1) g (Some gt')), ONone)
+      let gt' := mkG (g_dig gt) (g_existing gt) RDone (if ok then s_backing s (g_dig gt) else [])
+                     (g_writes gt) (g_failed gt || negb ok) in
+      (set_gets s (updn (s_gets s) g (Some gt')), ONone)
     | _ => (s, ONone)
     end
   | None => (s, ONone)
@@ -218,9 +215,9 @@ Definition step_put (v : variant) (g : nat) (d : N) (m : list N) (ok : bool) (s 
       let s1 := if ok then set_backing s (updN (s_backing s) (w_dig w) (w_msg w)) else s in
       let s2 := upd_handle s1 hid (fun h =>
                   let h1 := if ok then set_wv h (w_ver w) else h in
-                  if v_guard v then set_writing h1 false else h1) in
+                  set_writing h1 None) in
       let s3 := remove_or_queue v hid s2 in
-      let gt' := mkG (g_dig gt) (g_existing gt) (g_h gt) (g_read gt) rest (g_failed gt || negb ok) in
+      let gt' := mkG (g_dig gt) (g_existing gt) (g_read gt) (g_snap gt) rest (g_failed gt || negb ok) in
       (set_gets s3 (updn (s_gets s3) g (Some gt')), ONone)
     | None => (s, ONone)
     end
@@ -241,13 +238,21 @@ Definition step_end (v : variant) (g : nat) (s : state) : state * out :=
     | _, _ :: _ => (s, ONone)
     | _, [] =>
       let s0 := set_gets s (updn (s_gets s) g None) in
-      if g_failed gt then
-        ((if g_existing gt then decrease_use v (g_h gt) s0 else s0), OEnd None)
-      else if g_existing gt then return_handle g (g_h gt) s0
-      else match s_map s0 (g_dig gt) with
-           | Some hid' => return_handle g hid' (increase_use hid' s0)
-           | None => return_handle g (g_h gt) (set_map s0 (updN (s_map s0) (g_dig gt) (Some (g_h gt))))
-           end
+      match g_existing gt with
+      | Some hid =>
+        if g_failed gt then (decrease_use v hid s0, OEnd None) else return_handle g hid s0
+      | None =>
+        if g_failed gt then (s0, OEnd None)
+        else match s_map s0 (g_dig gt) with
+             | Some hid' => return_handle g hid' (increase_use hid' s0)
+             | None =>
+               (* the handle created by this Get is registered *)
+               let hid := s_nexth s0 in
+               let s1 := set_nexth (set_handles s0 (updn (s_handles s0) hid
+                           (mkH (g_dig gt) 1 0 0 None (g_snap gt) None))) (S hid) in
+               return_handle g hid (set_map s1 (updN (s_map s1) (g_dig gt) (Some hid)))
+             end
+      end
     end
   | None => (s, ONone)
   end.
